@@ -5,7 +5,7 @@ variable {Q P : Type}
 
 /-- attribute values right after `initialize` -/
 def fields0 [One P] (st : Q) (mr : Option (List Int)) : Fields Q P :=
-  { st := some st, form := .qobj, prob := 1, opIndex := 0, mres := mr, mind := 0 }
+  { st := some st, form := .qobj, prob := 1, opIndex := 0, mres := mr, mind := 0, mixed := [] }
 
 /-- the bits a run starts from, given the VALUE of the caller's `cbits` argument -/
 def initBits (c : Circuit) (arg : Option (List Int)) : Option (List Int) :=
